@@ -80,3 +80,14 @@ Theorem C02_statement_line :
 ")%string.
 Proof. exact stmt_line. Qed.
 Print Assumptions C02_statement_line.
+
+(* Structured handlers: for every exit-free nest of if / if-else / repeat while over straight-line statements (any
+   depth, any length) the text emitted for the rebuilt statement list (C03_exit_free_nests_rebuilt_unbounded gives
+   that list from the bytes) is the canonical layout of the SOURCE program: "if <cond> then" / "else" / "end if",
+   "repeat while <cond>" / "end repeat", bodies one level deeper, every condition and statement line as above. *)
+From DRX Require Import Spec.SpecNest Proofs.LingoNestText.
+Theorem C02_structured_text_is_canonical :
+  forall en props p, text_ok_p en props p -> forall pc ind,
+    text_of (rebuilt en props pc p) ind = pp_p en props ind p.
+Proof. exact nest_text. Qed.
+Print Assumptions C02_structured_text_is_canonical.
